@@ -110,6 +110,8 @@ struct CrashState {
     op_in_flight: usize,
     /// class of the effect that was about to be applied (the crash is just before it)
     before_effect: String,
+    /// path of the effect that was about to be applied
+    next_path: String,
     /// class of the effect applied last (the crash is just after it)
     after_effect: String,
     data: DirImage,
@@ -182,7 +184,18 @@ fn judge(dirs: &Dirs, cs: &CrashState, acked: &[(String, String)], stats: &mut R
             .map(|k| k.signature)
             .collect();
         let mut sub = RunStats::default();
-        match crate::checks::c04::compare_store(&dirs.root, &dirs.workspace, &cs.data, &truth0, cs.index as u64 ^ 0x5eed, 1, &mut sub, &[], &[]) {
+        // the thread whose append was in flight: named by the next cache path, else the thread of
+        // the last continuity frame in truth
+        let focus: Option<String> = cs
+            .next_path
+            .rsplit('/')
+            .next()
+            .filter(|_| cs.next_path.contains("/continuity_streams/"))
+            .and_then(|n| n.split('.').next())
+            .map(|s| s.to_string())
+            .or_else(|| truth0.frames.iter().rev().find(|f| f.stream_kind == "continuity").map(|f| f.stream_id.clone()));
+        let only: Vec<String> = focus.into_iter().collect();
+        match crate::checks::c04::compare_store_only(&dirs.root, &dirs.workspace, &cs.data, &truth0, cs.index as u64 ^ 0x5eed, 1, &mut sub, &[], &[], Some(&only)) {
             Ok(Some(v)) => {
                 stats.bump("recovered_store_comparisons", 1);
                 let v = Violation {
@@ -427,9 +440,9 @@ pub fn execute(sc: &Scenario, env: &Env) -> (Outcome, RunStats) {
     let d2 = dirs.clone();
     let mut last_class = String::from("start");
     let rep = sim.run(move |ev| {
-        let class = match &ev.point {
-            Point::Fs(e) if e.kind.is_mutating() => format!("{:?}:{}", e.kind, file_class(&e.path)),
-            Point::End => "end".to_string(),
+        let (class, next_path) = match &ev.point {
+            Point::Fs(e) if e.kind.is_mutating() => (format!("{:?}:{}", e.kind, file_class(&e.path)), e.path.clone()),
+            Point::End => ("end".to_string(), String::new()),
             _ => return Verdict::proceed(),
         };
         let (acked_ops, in_flight) = {
@@ -443,6 +456,7 @@ pub fn execute(sc: &Scenario, env: &Env) -> (Outcome, RunStats) {
             acked_ops,
             op_in_flight: in_flight,
             before_effect: class.clone(),
+            next_path,
             after_effect: last_class.clone(),
             data: faults::read_tree(&d2.data),
             rip: faults::read_tree(&rip_dir(&d2)),
@@ -509,6 +523,9 @@ pub fn execute(sc: &Scenario, env: &Env) -> (Outcome, RunStats) {
                 v.detail
             );
             stats.bump(&format!("violating_crash_points:{}", v.class), 1);
+            if std::env::var("RIPSIM_DEBUG").is_ok() {
+                eprintln!("[c05] {} :: {}", v.signature, v.detail.chars().take(260).collect::<String>());
+            }
             if known.iter().any(|k| crate::driver::sig_matches(k, &v.signature)) {
                 if first_known.is_none() {
                     first_known = Some(v);
